@@ -37,7 +37,7 @@ func c09Scenario(id string, g c09Cfg, pattern, fault, nJobs, directed int, seed 
 		d.Reset(seed)
 		rep := map[string]any{"scenario": id, "config": g.String(), "jobs": nJobs,
 			"pattern":  [...]string{"burst", "trickle", "concurrent submitters", "ScheduleWithTimeout on a full queue", "Invoke/InvokeWithTimeout", "burst then silence"}[pattern],
-			"faults":   [...]string{"none", "first job panics", "last job panics", "every worker's current job panics", "PRNG panics and slow jobs", "one slow job per worker"}[fault],
+			"faults":   [...]string{"none", "first job panics", "last job panics", "every worker's current job panics", "PRNG panics and slow jobs", "one slow job per worker", "some jobs end their goroutine with runtime.Goexit"}[fault],
 			"directed": directed}
 		q := fpgo.NewBufferedChannelQueue[func()](g.qcap, g.qbuf, 8)
 		q.SetLoadFromPoolDuration(100 * time.Microsecond)
@@ -66,6 +66,7 @@ func c09Scenario(id string, g c09Cfg, pattern, fault, nJobs, directed int, seed 
 		rng := rand.New(rand.NewSource(seed))
 		panics := make([]bool, nJobs)
 		slow := make([]int, nJobs)
+		goexit := make([]bool, nJobs)
 		switch fault {
 		case 1:
 			panics[0] = true
@@ -83,6 +84,12 @@ func c09Scenario(id string, g c09Cfg, pattern, fault, nJobs, directed int, seed 
 		case 5:
 			for i := 0; i < g.max && i < nJobs; i++ {
 				slow[i] = 3
+			}
+		case 6:
+			// a job may end the goroutine it runs on (runtime.Goexit, what testing.T.FailNow does): not a panic, the
+			// handler is not involved, and later accepted jobs must still run
+			for i := range goexit {
+				goexit[i] = i == 0 || rng.Intn(5) == 0
 			}
 		}
 		mkJob := func(i int) func() {
@@ -109,6 +116,9 @@ func c09Scenario(id string, g c09Cfg, pattern, fault, nJobs, directed int, seed 
 				finished.Add(1)
 				if panics[i] {
 					panic(c09Panic{i})
+				}
+				if goexit[i] {
+					runtime.Goexit()
 				}
 			}
 		}
@@ -498,6 +508,8 @@ func c09Scenarios(c *core.Ctx, race bool) []core.Scenario {
 				}
 			}
 		}
+		// stand-by size above the maximum (the maximum wins), configured maximum-first
+		cfgs = append(cfgs, c09Cfg{max, max + 1, 1, 2, 4, 2 * time.Millisecond, time.Millisecond}, c09Cfg{max, max + 3, 0, 3, 8, 20 * time.Millisecond, 50 * time.Millisecond})
 		// standby 0 with a batch size and an idle expiry longer than the run
 		cfgs = append(cfgs, c09Cfg{max, 0, 1, 2, 4, 10 * time.Second, time.Millisecond}, c09Cfg{max, 0, 2, 1, 8, 10 * time.Second, 50 * time.Millisecond})
 	}
@@ -517,6 +529,9 @@ func c09Scenarios(c *core.Ctx, race bool) []core.Scenario {
 		if g.standby == 0 && g.max <= 2 {
 			picked[ci] = true
 		}
+		if g.standby > g.max && g.max <= 2 {
+			picked[ci] = true
+		}
 	}
 	seeds := c.Pick(3, 8)
 	for ci := range cfgs {
@@ -525,7 +540,7 @@ func c09Scenarios(c *core.Ctx, race bool) []core.Scenario {
 		}
 		g := cfgs[ci]
 		for pattern := 0; pattern < 6; pattern++ {
-			for _, fault := range []int{(pattern + ci) % 6, (pattern + ci + 3) % 6} {
+			for _, fault := range []int{(pattern + ci) % 7, (pattern + ci + 3) % 7} {
 				for s := 0; s < seeds; s++ {
 					n := 20 + rng.Intn(100)
 					if race {
@@ -557,7 +572,7 @@ func init() {
 		Meta: func(c *core.Ctx) core.Meta {
 			return core.Meta{
 				Level: "exploration",
-				Rule: "pool configurations workerSizeMaximum 1..4 x standby {1,max} (and standby 0 with batch >= 1 and a 10 s idle expiry) x batch {0,1,3} x job queue (cap,buf) in {(1,0),(2,3),(3,8)} x expiry {2,20 ms} x jam {1,50 ms} (quick: 24 of them incl. the max-1 pool, thorough: all 104 x 8 seeds) x 6 submission patterns (burst, trickle, 2..8 concurrent submitters, ScheduleWithTimeout, InvokeWithTimeout, burst then silence) x 2 fault placements each (first / last / every worker's current job panics, PRNG panics + slow jobs, slow jobs) plus directed runs that park a dying worker, two expiring workers, the spawn loop after its computation and Schedule before its wake-up; the jobs are the monitor (atomic start counters per unique job, concurrency gauge asserted at every start, unique panic values); the panic handler logs what it gets and is instant, 2 ms or 5 ms slow; two pools sharing one job queue (the first closed with its queue kept open while its stand-by workers wait, the second accepts jobs afterwards); " +
+				Rule: "pool configurations workerSizeMaximum 1..4 x standby {1,max,max+1,max+3} (and standby 0 with batch >= 1 and a 10 s idle expiry) x batch {0,1,3} x job queue (cap,buf) in {(1,0),(2,3),(3,8)} x expiry {2,20 ms} x jam {1,50 ms} (quick: 24 of them incl. the max-1 pool, thorough: all 104 x 8 seeds) x 6 submission patterns (burst, trickle, 2..8 concurrent submitters, ScheduleWithTimeout, InvokeWithTimeout, burst then silence) x 2 fault placements each (first / last / every worker's current job panics, PRNG panics + slow jobs, slow jobs, jobs that end their goroutine with runtime.Goexit) plus directed runs that park a dying worker, two expiring workers, the spawn loop after its computation and Schedule before its wake-up; the jobs are the monitor (atomic start counters per unique job, concurrency gauge asserted at every start, unique panic values); the panic handler logs what it gets and is instant, 2 ms or 5 ms slow; two pools sharing one job queue (the first closed with its queue kept open while its stand-by workers wait, the second accepts jobs afterwards); " +
 					"after submission the driver waits until every accepted job started or the stuck detector fires (no job start and no worker lifecycle event for 3 s and no library goroutine able to progress); dedicated scenarios hold the only worker busy to check Full / ScheduleTimeout / closed errors exactly. distinct_nontrivial = distinct scenarios + hook-trace signatures",
 				Assumptions: []string{"exactly-once only while the pool is left open; configurations restricted to the property's quantifier (max >= 1, queue capacity >= 1, standby >= 1 or the standby-0 variant)",
 					"idle workers re-arming their expiry timer are not counted as progress", "workerSizeMaximum is configured before any other setter wakes the spawn loop (the bound is only asserted while the maximum is not being changed)", "the race detector is advisory for worker/pool.go (pre-existing unsynchronised statistics counters), reports are recorded but do not decide"},
